@@ -234,7 +234,37 @@ def r5(ctx):
               sites=[sp for _, _, sp in cs], got=owners, key="shared")
 
 
+def r6(ctx):
+    """a position OPENED by a fill (first fill, or the remainder of a flip) must carry the estimate at the fill price"""
+    fr = ctx.find(name="from", self_adt=POS, trait="std::convert::From")
+    b = ctx.body(fr)
+    rt = b.return_term()
+    f = dict(zip(rt[2], rt[3])) if rt[0] == "agg" else {}
+    v = f.get("pnl_unrealised")
+    ok = False
+    got = render(v) if v is not None else None
+    if v is not None:
+        try:
+            q, p, fe = sympy.Symbol("q", real=True), sympy.Symbol("p", real=True), sympy.Symbol("f", real=True)
+
+            def sym(t):
+                return {"trade.price": p, "trade.fees.fees": fe, "trade.quantity": q}.get(render(t))
+            e = formula.to_sympy(ctx.facts, v, sym=sym)
+            # estimate at the fill price: no price move, minus the pro-rata exit-fee estimate (q/qmax = 1) => -fees
+            ok = formula.equal(e, -fe)
+            got = str(e)
+        except formula.NotAFormula as ex:
+            got = "not a formula: %s" % ex
+    upd = [tm for bi, t, tm in b.real_calls() if tm[1].endswith("::update_pnl_unrealised")]
+    ok = ok or (len(upd) == 1 and render(upd[0][2][1]) == "trade.price")
+    ctx.check("Position::from", ok,
+              "a position opened by a fill carries the documented estimate at the fill price (0 price move minus the estimated exit "
+              "fees = -entry fee), like every other fill path", sites=[ctx.facts.bodies[fr]["span"]], got=got, want="-trade.fees.fees",
+              key="opening-fill")
+
+
 RULES = [
+    ("R6", "a position opened by a fill carries the estimate at the fill price", r6),
     ("R1", "the engine's market path must reach Position::update_pnl_unrealised (call graph, accepted guards only)", r1),
     ("R2", "InstrumentState::update_from_market: process -> price() -> update_pnl_unrealised(price), in that order", r2),
     ("R3", "each arm of Position::update_from_trade refreshes the estimate at the fill price after its last write", r3),
